@@ -179,6 +179,13 @@ def run(ctx):
                ("2 groups graft, start 2/3, 5 calls", [G([1], [2], start=2), G([1, 2], [1, 1], start=3)], 5, (), ())]
     sp.run_mc(ctx, mc, [])
     tasks = sp.gen_tasks(ctx, rng, 16 if quick else 100, 12 if quick else 30, make_groups, 8, (), (), per_beh_redraw=False)
+    # bounded-exhaustive: every gradient-presence history of depth 4 inside the warm-up of a momentum-SGD and an RMSprop group
+    for gt in ("sgd", "rmsprop") + (() if quick else ("adagrad", "adamw")):
+        g = make_group(rng, gt)
+        g.update(shapes=[[2, 2], [3]], maxdim=2, merge=False, start=6, freq=1)
+        if gt == "sgd":
+            g["mom0"] = 1
+        tasks += sp.exhaustive_tasks(ctx, rng, [g], 4, (), (), redraws=0)
     res4 = sp.pool_map(warmup_task, [(d, b) for d, b, _ in tasks])
     res = [(a, b, c) for a, b, c, _ in res4]
     compared = sum(x[3] for x in res4)
